@@ -82,10 +82,20 @@ class Daemon:
 
     # ---- clients ---------------------------------------------------------------------------
     def connect(self, timeout=20.0):
-        s = socket.socket(socket.AF_UNIX, socket.SOCK_STREAM)
-        s.settimeout(timeout)
-        s.connect(self.sock)
-        return s
+        # a full listen backlog makes connect() on a unix socket fail with EAGAIN at once: that is the client's cue to try
+        # again, not the daemon's answer
+        last = None
+        for attempt in range(200):
+            s = socket.socket(socket.AF_UNIX, socket.SOCK_STREAM)
+            s.settimeout(timeout)
+            try:
+                s.connect(self.sock)
+                return s
+            except BlockingIOError as e:
+                last = e
+                s.close()
+                time.sleep(0.01 + 0.002 * attempt)
+        raise last
 
     def ping(self):
         try:
@@ -116,8 +126,9 @@ class Daemon:
         except (OSError, ValueError):
             return None
 
-    def exec_blob(self, blob, chunk_delay=None, timeout=60.0):
-        """well-behaved client: returns dict(out, err, exit) or dict(error=...)"""
+    def exec_blob(self, blob, chunk_delay=None, timeout=60.0, stall=None):
+        """well-behaved client: returns dict(out, err, exit) or dict(error=...); `stall`: seconds the client waits before it
+        starts reading the replies (a slow consumer - the session has to wait for it, not drop output)"""
         try:
             s = self.connect(timeout)
             s.sendall(header(MSG_LOAD_EXEC, len(blob)))
@@ -127,6 +138,8 @@ class Daemon:
                     time.sleep(chunk_delay[1])
             else:
                 s.sendall(blob)
+            if stall:
+                time.sleep(stall)
             return read_replies(s)
         except OSError as e:
             return {"error": "client I/O error: %s" % e}
